@@ -1246,3 +1246,44 @@ def compiled_patterns(mod: Module, funcs: List[ast.AST]) -> List[ast.Call]:
             if isinstance(v, ast.Call) and ast.unparse(v.func) == "re.compile" and not any(v is x for x in out):
                 out.append(v)
     return out
+
+
+def dead_updates_after_loop(func: ast.AST) -> List[Tuple[str, str]]:
+    """(variable, statement) for a self-update `x += e` / `x = x + e` of a local that is placed right AFTER a loop which reads x, while nothing reads x afterwards:
+    the update was meant to advance a loop-carried value (an offset, a counter) but cannot have any effect - every iteration sees the initial value"""
+    out = []
+    def reads(node, name):
+        return any(isinstance(n, ast.Name) and n.id == name and isinstance(n.ctx, ast.Load) for n in ast.walk(node))
+    returns_or_yields = lambda node: any(isinstance(n, (ast.Return, ast.Yield, ast.YieldFrom)) for n in ast.walk(node))
+    def blocks(node):
+        for fld in ("body", "orelse", "finalbody"):
+            b = getattr(node, fld, None)
+            if isinstance(b, list) and b and isinstance(b[0], ast.stmt):
+                yield b
+                for st in b:
+                    if not isinstance(st, (ast.FunctionDef, ast.AsyncFunctionDef, ast.ClassDef)):
+                        yield from blocks(st)
+    own_nonlocal = {n_ for x in ast.walk(func) if isinstance(x, (ast.Nonlocal, ast.Global)) for n_ in x.names}
+    for b in blocks(func):
+        for i, st in enumerate(b):
+            name = None
+            if isinstance(st, ast.AugAssign) and isinstance(st.target, ast.Name):
+                name = st.target.id
+            elif isinstance(st, ast.Assign) and len(st.targets) == 1 and isinstance(st.targets[0], ast.Name) and reads(st.value, st.targets[0].id):
+                name = st.targets[0].id
+            if name is None or name in own_nonlocal or i == 0:
+                continue
+            prev = b[i - 1]
+            if not isinstance(prev, (ast.For, ast.While)) or not reads(prev, name):
+                continue
+            # is the variable updated inside the loop as well?  then the trailing update is something else (e.g. a final adjustment)
+            if any(isinstance(n, (ast.AugAssign, ast.Assign)) and any(isinstance(t, ast.Name) and t.id == name for t in ([n.target] if isinstance(n, ast.AugAssign) else n.targets)) for n in ast.walk(prev)):
+                continue
+            later = b[i + 1:]
+            if any(reads(x, name) for x in later):
+                continue
+            # the block must be the tail of the function (nothing after the enclosing statement can read the variable either): only flag function-level tails
+            if b is not getattr(func, "body", None):
+                continue
+            out.append((name, " ".join(ast.unparse(st).split())[:80]))
+    return out
